@@ -405,7 +405,13 @@ def containsSub (needle : Bytes) : Bytes → Bool
 def isChunked (fs : List (Bytes × Bytes)) : Bool :=
   containsSub [99, 104, 117, 110, 107, 101, 100] (asciiLower ((getJoined fs [116, 114, 97, 110, 115, 102, 101, 114, 45, 101, 110, 99, 111, 100, 105, 110, 103]).getD []))
 
-def hexNat (n : Nat) : Bytes := (Nat.toDigits 16 n).map (fun c => UInt8.ofNat c.toNat)
+/-- lower-case hex digits of `n`, least significant first (`fuel` > number of digits) -/
+def hexRev : Nat → Nat → Bytes
+  | 0, _ => []
+  | f + 1, n => if n < 16 then [hexDigit n] else hexDigit (n % 16) :: hexRev f (n / 16)
+
+/-- `b"%x" % n` -/
+def hexNat (n : Nat) : Bytes := (hexRev (n + 1) n).reverse
 
 /-- `assemble_request` (no trailers): the chunked branch re-frames the content as one chunk -/
 def assembleRequest (r : RawReq) : Option Bytes :=
@@ -455,6 +461,42 @@ def parseRaw (b : Bytes) : Option RawReq :=
         | none => none
       | none => none
     | none => none
+  | none => none
+
+
+/-- the body as `assemble_body` frames it under `Transfer-Encoding: chunked` (one chunk, no trailers) -/
+def chunkedBody (body : Bytes) : Bytes :=
+  (if body.isEmpty then [] else hexNat body.length ++ crlf ++ body ++ crlf) ++ [48, 13, 10, 13, 10]
+
+/-- value of hex digits given least significant first -/
+def valRev : Bytes → Option Nat
+  | [] => some 0
+  | c :: r => match Sh.hexVal c, valRev r with
+    | some d, some v => some (d + 16 * v)
+    | _, _ => none
+
+def parseHex (b : Bytes) : Option Nat := if b.isEmpty then none else valRev b.reverse
+
+/-- minimal chunked-body reader: `size CRLF data CRLF`… until a zero-size chunk followed by the final CRLF -/
+def parseChunked : Nat → Bytes → Option Bytes
+  | 0, _ => none
+  | f + 1, b =>
+    match takeLine b with
+    | some (sz, rest) =>
+      match parseHex sz with
+      | some n =>
+        if n = 0 then (if rest = crlf then some [] else none)
+        else if rest.length < n + 2 then none
+        else match rest.drop n with
+          | 13 :: 10 :: rest' => (parseChunked f rest').map (rest.take n ++ ·)
+          | _ => none
+      | none => none
+    | none => none
+
+/-- read a raw request whose body is chunk-framed -/
+def parseRawChunked (b : Bytes) : Option RawReq :=
+  match parseRaw b with
+  | some r => (parseChunked (r.body.length + 1) r.body).map fun body => { r with body := body }
   | none => none
 
 end MitmVerif.C48
